@@ -152,13 +152,15 @@ class CacheView(Table):
 
     def __iter__(self):
 
-        # serve whatever is in the cache first
+        # serve whatever is in the cache first (N.B., clearcache() replaces the
+        # list, so what has been served may no longer be the current cache)
+        cache = self.cache
         position = 0
-        for row in self.cache:
+        for row in cache:
             position += 1
             yield row
 
-        if not self.cachecomplete:
+        if not self.cachecomplete or cache is not self.cache:
 
             # serve the remainder from the inner iterator
             it = iter(self.inner)
